@@ -49,7 +49,8 @@ def plan_C15(tier, seed):
                 "combinators once more with a zero-sized value type () and once more with callables that capture 320 bytes by "
                 "value; six shapes of the table are evaluated a second time from a destructor while the thread is unwinding "
                 "from a panic (std::thread::panicking() is true there), and - not under Miri - for the 300th time on the same "
-                "thread (combinators keep no state); the whole table is instantiated for several shapes of the "
+                "thread (combinators keep no state); six more cells per shape evaluate or_parse and and_then INSIDE a "
+                "continuation of and_then / and_also after a nested continuation failed and the enclosing code recovered; the whole table is instantiated for several shapes of the "
                 "value/error types - thirteen - (4-byte; odd-sized (u32,(u8,u16)); 136-byte and 328-byte arrays, i.e. Parsed larger than 128 "
                 "bytes; String and Box payloads with drop glue; u128 and #[repr(align(64))] payloads, i.e. over-aligned; five more where the types that map / "
                 "and_then / err_into / map_err convert TO differ in size from the ones they convert FROM: widening 4->16, 16->32, "
@@ -64,9 +65,9 @@ def plan_C15(tier, seed):
         "jobs": jobs,
         "primary_jobs": ["table-chk"],
         "eval_counters": ["cells", "grammar_strings"],
-        "floors": {"cells": 2 * (13 + 6 + 6) * 131 + 2 * 6 * 131, "shapes": 2 * 13 + 6, "cells_evaluated_while_unwinding": 3 * 6 * 131,
+        "floors": {"cells": 2 * (13 + 6 + 6) * 137 + 2 * 6 * 137, "shapes": 2 * 13 + 6, "cells_evaluated_while_unwinding": 3 * 6 * 137,
                    "table_repetitions_on_one_thread": 2 * 300,
-                   "distinct_nontrivial": 13 * 131},
+                   "distinct_nontrivial": 13 * 137},
         "assumptions": ["the specification table in harness/src/c15.rs is written from the rustdoc of flussab::Parsed/ResultExt"],
     }
 
@@ -229,7 +230,8 @@ def plan_C11(tier, seed):
                 "merged client/sink log: non-failing - sink contents are always a prefix of the written stream and equal to "
                 "it after every flush and after drop - one run in three drops the writer by unwinding from a panic of the "
                 "client code (sink healthy and outliving the unwind) instead of leaving its scope -, flush returns Ok; failing - write calls succeed, no sink call between a "
-                "failure and its report, the report comes from the next flush/check_io_error exactly once, later data "
+                "failure and its report (the sink's own flush() counts as a call), the report comes from the next "
+                "flush/check_io_error exactly once, later data "
                 "arrives again, every accepted piece continues an in-order duplicate-free selection of the written stream "
                 "(earliest-match per piece); buf_write_ptr(n) is non-null iff n more bytes fit. A run is non-trivial if the "
                 "sink saw >= 2 write calls and more than one buffer capacity was written; distinct by hash of (index, sink "
@@ -426,7 +428,8 @@ def plan_C07(tier, seed):
               "blank_line_between_clauses", "blank_line_inside_clause", "comment_before_header", "comment_between_clauses",
               "comment_inside_clause", "clause_split_over_lines", "crlf", "no_final_newline", "leading_zeros",
               "minus_zero_terminator", "comment_with_cr_or_digits", "split_after_weight_or_group", "empty_comment",
-              "blank_only_line_with_spaces", "final_blanks_no_newline", "comment_with_non_ascii_bytes"]:
+              "blank_only_line_with_spaces", "final_blanks_no_newline", "comment_with_non_ascii_bytes",
+              "last_line_of_any_kind_without_newline"]:
         fl["feature:dimacs:" + f] = 1000
     for f in ["comment_lines", "unknown_lines", "values_split_over_lines", "empty_value_line", "status_before_values",
               "status_between_values", "status_after_values", "crlf", "no_final_newline", "multi_blank_between_values",
@@ -439,7 +442,7 @@ def plan_C07(tier, seed):
                 "test as free: 1..4 spaces/tabs between tokens, trailing and leading blanks, blank lines and comment lines "
                 "(before the header, between clauses, inside a split clause, after weight/group; comment text: fixed samples or "
                 "0..360 arbitrary bytes other than LF with weight on bytes >= 0x80), clauses spread over lines, LF "
-                "or CRLF per line, missing final newline, 0..30 leading zeros, '-0' terminator; solver log: value lines split "
+                "or CRLF per line, missing final newline (after whatever the last line is: header, clause, comment, blank), 0..30 leading zeros, '-0' terminator; solver log: value lines split "
                 "anywhere, empty value lines, comment lines and (with ignore_unknown_lines) arbitrary other lines anywhere, "
                 "status before/between/after the value lines. Each rendering is parsed one-shot and under a random small-chunk "
                 "schedule and must return exactly the abstract value and a clean end; all five literal types, with and without "
@@ -645,7 +648,7 @@ def plan_C10(tier, seed):
                 "moving on (the section readers pass over the rest); DIMACS with four stream shapes: clauses only / declared clause count, all clauses, then "
                 "comment and blank lines for the rest of the stream / comment and blank lines for half of the stream in front "
                 "of the header / clauses split over lines around comments plus blocks of 3000 comment and blank lines every "
-                "1000 clauses; BTOR2 with three line mixes: mixed, symbol+comment on every line, comment lines between "
+                "1000 clauses, every other block standing inside a clause that is left open in front of it; BTOR2 with three line mixes: mixed, symbol+comment on every line, comment lines between "
                 "symbol-only nodes} x chunk size "
                 "{64,4096,16384,65536} x read size {1,7,chunk,random} x item profile {all small; one 1 MiB comment line early, "
                 "then small (text formats)} = 192 configurations; each streams N = %d MiB (rel build; chk build with less) "
